@@ -269,3 +269,96 @@ package level
 //@   ensures err == nil ==> bswf(p.data) && p.data.bits == p.bits && !isnil(p.palette)   [@wf]
 //@   ensures Sfail(st) ==> err != nil                                                [@errprop]
 //@   modifies p.bits, p.palette, *p.data, p.data.data[0:cap(p.data.data)], stream(r) [@frame]
+
+// ---------------------------------------------------------------- chunk conversions (C13)
+//
+// The palette translations go through the block registry, the NBT codec and reflection; they
+// are outside the verifier's reach and enter only as trusted frame conditions (they modify
+// nothing the chunk conversion reads afterwards). What is decided here is the glue: which
+// height map goes under which name, status, light arrays, section numbering, block entity
+// coordinate packing.
+
+//@ define sameslice(a, b) = base(a) == base(b) && off(a) == off(b) && len(a) == len(b)
+//@ define hmsize(secs) = bssize(bitslen(secs*16 + 1), 256)
+//@ define hmok(s, secs) = isnil(s) || len(s) == hmsize(secs)
+//@ define hmeq(b, s, secs) = !isnil(b) && b.length == 256 && b.bits == bitslen(secs*16 + 1) && all(k, 0, len(b.data), b.data[k] == ite(isnil(s), 0, s[k]))
+
+//@ func readStatesPalette(palette, data) (paletteData, err)
+//@   trusted
+//@   mayalias palette, data
+//@   modifies nothing
+
+//@ func readBiomesPalette(palette, data) (res, err)
+//@   trusted
+//@   mayalias palette, data
+//@   modifies nothing
+
+//@ func countNoneAirBlocks(sec) (blockCount)
+//@   trusted
+//@   modifies nothing
+
+//@ func writeStatesPalette(paletteData) (palette, data, err)
+//@   trusted
+//@   modifies nothing
+
+//@ func writeBiomesPalette(paletteData) (palette, data, err)
+//@   trusted
+//@   modifies nothing
+
+//@ func (*BlockEntity).PackXZ(b; X, Z) (ok)
+//@   ensures ok == (0 <= X && X <= 15 && 0 <= Z && Z <= 15)                          [@value]
+//@   ensures ok ==> int(uint8(b.XZ)) == X*16 + Z                                     [@value]
+//@   ensures !ok ==> b.XZ == old(b.XZ)                                               [@frame]
+//@   modifies b.XZ                                                                   [@frame]
+
+//@ func (BlockEntity).UnpackXZ(b) (X, Z)
+//@   ensures X == int(uint8(b.XZ)) / 16 && Z == int(uint8(b.XZ)) % 16               [@value]
+//@   modifies nothing                                                                [@frame]
+
+// UnpackXZ inverts PackXZ on the accepted range
+//@ lemma xz_roundtrip(x i64, z i64): 0 <= x && x <= 15 && 0 <= z && z <= 15 ==> (x*16 + z) / 16 == x && (x*16 + z) % 16 == z && x*16 + z <= 255
+
+// ChunkToSave: every height map under its own name, status and light arrays carried over,
+// sections numbered from dst.YPos.
+//@ func ChunkToSave(c, dst) (err)
+//@   perreturn
+//@   requires !isnil(c.HeightMaps.WorldSurfaceWG) && !isnil(c.HeightMaps.WorldSurface) && !isnil(c.HeightMaps.OceanFloorWG) && !isnil(c.HeightMaps.OceanFloor) && !isnil(c.HeightMaps.MotionBlocking) && !isnil(c.HeightMaps.MotionBlockingNoLeaves)
+//@   requires base(c.HeightMaps.WorldSurfaceWG) != base(dst) && base(c.HeightMaps.WorldSurface) != base(dst) && base(c.HeightMaps.OceanFloorWG) != base(dst) && base(c.HeightMaps.OceanFloor) != base(dst) && base(c.HeightMaps.MotionBlocking) != base(dst) && base(c.HeightMaps.MotionBlockingNoLeaves) != base(dst) && base(c.Sections) != base(dst)
+//@   loop 0: modifies sections[:]
+//@   loop 0: invariant -1 <= rangeindex && rangeindex < len(c.Sections) || (rangeindex == -1 && len(c.Sections) == 0)
+//@   loop 0: invariant len(sections) == len(c.Sections)
+//@   loop 0: invariant all(j, 0, rangeindex+1, sameslice(sections[j].SkyLight, c.Sections[j].SkyLight) && sameslice(sections[j].BlockLight, c.Sections[j].BlockLight) && sections[j].Y == int8(int32(j) + dst.YPos))
+//@   ensures err == nil ==> sameslice(dst.Heightmaps["WORLD_SURFACE_WG"], c.HeightMaps.WorldSurfaceWG.data) && has(dst.Heightmaps, "WORLD_SURFACE_WG")                     [@value]
+//@   ensures err == nil ==> sameslice(dst.Heightmaps["WORLD_SURFACE"], c.HeightMaps.WorldSurface.data) && has(dst.Heightmaps, "WORLD_SURFACE")                            [@value]
+//@   ensures err == nil ==> sameslice(dst.Heightmaps["OCEAN_FLOOR_WG"], c.HeightMaps.OceanFloorWG.data) && has(dst.Heightmaps, "OCEAN_FLOOR_WG")                           [@value]
+//@   ensures err == nil ==> sameslice(dst.Heightmaps["OCEAN_FLOOR"], c.HeightMaps.OceanFloor.data) && has(dst.Heightmaps, "OCEAN_FLOOR")                                  [@value]
+//@   ensures err == nil ==> sameslice(dst.Heightmaps["MOTION_BLOCKING"], c.HeightMaps.MotionBlocking.data) && has(dst.Heightmaps, "MOTION_BLOCKING")                       [@value]
+//@   ensures err == nil ==> sameslice(dst.Heightmaps["MOTION_BLOCKING_NO_LEAVES"], c.HeightMaps.MotionBlockingNoLeaves.data) && has(dst.Heightmaps, "MOTION_BLOCKING_NO_LEAVES")   [@value]
+//@   ensures err == nil ==> sameslice(dst.Status, c.Status)                          [@value]
+//@   ensures err == nil ==> len(dst.Sections) == len(c.Sections)                     [@value]
+//@   ensures err == nil ==> all(j, 0, len(c.Sections), sameslice(dst.Sections[j].SkyLight, c.Sections[j].SkyLight))       [@value]
+//@   ensures err == nil ==> all(j, 0, len(c.Sections), sameslice(dst.Sections[j].BlockLight, c.Sections[j].BlockLight))   [@value]
+//@   ensures err == nil ==> all(j, 0, len(c.Sections), dst.Sections[j].Y == int8(int32(j) + dst.YPos))                    [@value]
+//@   modifies dst.Sections, dst.Heightmaps, dst.Status, map(dst.Heightmaps)         [@frame]
+
+// ChunkFromSave: every height map is built from the entry of the same name (nil = absent = all
+// zero), status carried over, one block entity per saved block entity; a height map of the wrong
+// length makes NewBitStorage panic.
+//@ func ChunkFromSave(c) (res, err)
+//@   perreturn
+//@   let secs = old(len(c.Sections))
+//@   requires len(c.Sections) < 1<<20
+//@   loop 0: modifies sections[:]
+//@   loop 0: invariant -1 <= rangeindex && rangeindex < len(c.Sections) || (rangeindex == -1 && len(c.Sections) == 0)
+//@   loop 1: modifies blockEntities[:]
+//@   loop 1: invariant -1 <= rangeindex && rangeindex < len(c.BlockEntities) || (rangeindex == -1 && len(c.BlockEntities) == 0)
+//@   panics only when !hmok(c.Heightmaps["WORLD_SURFACE_WG"], secs) || !hmok(c.Heightmaps["WORLD_SURFACE"], secs) || !hmok(c.Heightmaps["OCEAN_FLOOR_WG"], secs) || !hmok(c.Heightmaps["OCEAN_FLOOR"], secs) || !hmok(c.Heightmaps["MOTION_BLOCKING"], secs) || !hmok(c.Heightmaps["MOTION_BLOCKING_NO_LEAVES"], secs)
+//@   ensures err == nil ==> !isnil(res) && len(res.Sections) == secs && len(res.BlockEntity) == len(c.BlockEntities) && sameslice(res.Status, c.Status)   [@value]
+//@   ensures err == nil ==> hmeq(res.HeightMaps.WorldSurfaceWG, c.Heightmaps["WORLD_SURFACE_WG"], secs)                    [@value]
+//@   ensures err == nil ==> hmeq(res.HeightMaps.WorldSurface, c.Heightmaps["WORLD_SURFACE"], secs)                         [@value]
+//@   ensures err == nil ==> hmeq(res.HeightMaps.OceanFloorWG, c.Heightmaps["OCEAN_FLOOR_WG"], secs)                        [@value]
+//@   ensures err == nil ==> hmeq(res.HeightMaps.OceanFloor, c.Heightmaps["OCEAN_FLOOR"], secs)                             [@value]
+//@   ensures err == nil ==> hmeq(res.HeightMaps.MotionBlocking, c.Heightmaps["MOTION_BLOCKING"], secs)                     [@value]
+//@   ensures err == nil ==> hmeq(res.HeightMaps.MotionBlockingNoLeaves, c.Heightmaps["MOTION_BLOCKING_NO_LEAVES"], secs)   [@value]
+//@   ensures err == nil ==> bswf(res.HeightMaps.MotionBlocking)                                                     [@wf]
+//@   modifies nothing                                                                [@frame]
